@@ -89,7 +89,9 @@ def main():
             checked += 1
             if a != b:
                 print('SELFTEST FAILED: ref_lr1 and Earley disagree on', g.text(), s, a, b); return 1
-            if not a:
+            # earliest error detection relative to the language only holds for grammars without unproductive nonterminals
+            # (an LR automaton also follows rules that can never be completed)
+            if not a and all(x < 10 ** 9 for x in gg.productive(g)):
                 r = ref_lr1.parse(tb, s, recover=False)
                 vp = viable_prefix_len(g, s)
                 if r.errors and r.errors[0] != vp:
